@@ -756,12 +756,14 @@ def sink_loop_exit(fn: ast.AST) -> int:
 def simplify_defensive(fn: ast.AST) -> int:
     if not isinstance(fn, (ast.FunctionDef, ast.AsyncFunctionDef)):
         return 0
-    _ESC_CACHE.pop(id(fn), None)
-    _ESC_CACHE[id(fn)] = escaping_names(fn)      # (nested functions and global declarations are not touched by these rewrites)
+    had = id(fn) in _ESC_CACHE
+    if not had:
+        _ESC_CACHE[id(fn)] = escaping_names(fn)      # (nested functions and global declarations are not touched by these rewrites)
     try:
         return _simplify_defensive(fn)
     finally:
-        _ESC_CACHE.pop(id(fn), None)
+        if not had:
+            _ESC_CACHE.pop(id(fn), None)
 
 
 def _simplify_defensive(fn: ast.AST) -> int:
